@@ -122,7 +122,7 @@ def aesmodes_unit():
     cbc = ClassInfo('Python_AES', 'tlslite.utils.python_aes', 'AESCBC', 'cbc_',
                     [('rijndael', 'bytes'), ('IV', 'bytes')], base='AES', field_methods=BLOCK_FM)
     ctr = ClassInfo('Python_AES_CTR', 'tlslite.utils.python_aes', 'AESCTR', 'ctr_',
-                    [('rijndael', 'bytes'), ('IV', 'bytes'), ('_counter_bytes', 'Z'), ('_counter', 'bytes')],
+                    [('rijndael', 'bytes'), ('IV', 'bytes'), ('_counter_bytes', 'Z'), ('_counter', 'bytes'), ('_keystream', 'bytes')],
                     base='AES', field_methods=BLOCK_FM, props={'counter': '_counter'})
     p, a = U + 'python_aes.py', U + 'aes.py'
     items = [
@@ -136,6 +136,7 @@ def aesmodes_unit():
         (FnSig('Python_AES.decrypt', 'cbc_decrypt', [('ciphertext', 'bytes')], 'bytes'), p),
         ctr,
         (FnSig('Python_AES_CTR.__init__', 'ctr_init', [('key', 'bytes'), ('mode', 'Z'), ('IV', 'bytes')], 'None'), p),
+        (FnSig('Python_AES_CTR.counter@setter', 'ctr_set_counter', [('ctr', 'bytes')], 'None'), p),
         (FnSig('Python_AES_CTR._counter_update', 'ctr_counter_update', [], 'None'), p),
         (FnSig('Python_AES_CTR.encrypt', 'ctr_encrypt', [('plaintext', 'bytes')], 'bytes', fuel={0: 'len(plaintext) + 1'}), p),
         (FnSig('Python_AES_CTR.decrypt', 'ctr_decrypt', [('ciphertext', 'bytes')], 'bytes'), p),
